@@ -144,6 +144,18 @@ impl Calculus {
         let scale = |v: Vec<f64>| -> Vec<f64> { v.into_iter().map(|x| x * sc).collect() };
         (scale(nonsym_point(&self.kind, true, zi)), scale(nonsym_point(&self.kind, false, si)), mu)
     }
+    /// the object's earlier life: None = fresh, Some = it was scaled at another lattice point first
+    fn prior(&self, id: u64) -> Option<(Vec<f64>, Vec<f64>)> {
+        let per = (MUS.len() * SCALES.len()) as u64 * NPTS * NPTS;
+        if id / per == 0 {
+            return None;
+        }
+        let mut d = Digits(id % per);
+        let _ = d.pick(&MUS);
+        let zi = d.take(NPTS);
+        let si = d.take(NPTS);
+        Some((nonsym_point(&self.kind, true, (zi + 17) % NPTS), nonsym_point(&self.kind, false, (si + 31) % NPTS)))
+    }
 }
 
 impl Space for Calculus {
@@ -151,14 +163,14 @@ impl Space for Calculus {
         format!("barrier-calculus-{:?}", self.kind)
     }
     fn size(&self) -> u64 {
-        (MUS.len() * SCALES.len()) as u64 * NPTS * NPTS
+        2 * (MUS.len() * SCALES.len()) as u64 * NPTS * NPTS
     }
     fn describe(&self, id: u64) -> Value {
         let (z, s, mu) = self.decode(id);
-        json!({"cone": format!("{:?}", self.kind), "z": z, "s": s, "mu": mu})
+        json!({"cone": format!("{:?}", self.kind), "z": z, "s": s, "mu": mu, "object_used_before_at": self.prior(id).map(|(z0, s0)| json!({"z": z0, "s": s0}))})
     }
     fn bound(&self) -> Value {
-        json!({"dual_points": NPTS, "primal_points": NPTS, "mu": MUS, "lattice": "magnitudes {1,1e-3,1e3} x boundary fractions {0,+-.5,+-.99,1-1e-6} x skew {1,1e-2,1e2}", "common_scale": SCALES})
+        json!({"dual_points": NPTS, "primal_points": NPTS, "mu": MUS, "lattice": "magnitudes {1,1e-3,1e3} x boundary fractions {0,+-.5,+-.99,1-1e-6} x skew {1,1e-2,1e2}", "common_scale": SCALES, "object": "fresh | used at another lattice point before"})
     }
     fn run(&self, id: u64, ctx: &mut Ctx) -> CaseResult {
         let (z, s, mu) = self.decode(id);
@@ -167,6 +179,15 @@ impl Space for Calculus {
         let n = z.len();
         let (mz, ms) = (margin_dual(&cs, &z), margin_primal(&cs, &s));
         let mut any = AnyCone::new(k);
+        if let Some((z0, s0)) = self.prior(id) {
+            // histories: the object has been used at another scaling point before (both strategies)
+            if margin_dual(&cs, &z0) > 0.0 && margin_primal(&cs, &s0) > 0.0 {
+                let _ = any.cone().update_scaling(&s0, &z0, 0.5, ScalingStrategy::PrimalDual);
+                let _ = any.view().v_higher_correction(&s0, &z0);
+                let _ = any.cone().update_scaling(&s0, &z0, 0.5, ScalingStrategy::Dual);
+                ctx.outcome("object-used-before");
+            }
+        }
         // ---- membership predicates agree with the textbook definitions (interior lattice points)
         ensure!(any.view().v_is_dual_feasible(&z) == (mz > 0.0), "is_dual_feasible-disagrees", "z={:?} textbook margin {:e}", z, mz);
         ensure!(any.view().v_is_primal_feasible(&s) == (ms > 0.0), "is_primal_feasible-disagrees", "s={:?} textbook margin {:e}", s, ms);
